@@ -6,6 +6,7 @@ pub mod c03;
 pub mod c05;
 pub mod c09;
 pub mod c06;
+pub mod c07;
 pub mod c08;
 pub mod c10;
 pub mod c11;
@@ -23,6 +24,7 @@ pub fn run(run: &Run) -> bool {
 		"C05" => c05::run(run),
 		"C09" => c09::run(run),
 		"C06" => c06::run(run),
+		"C07" => c07::run(run),
 		"C08" => c08::run(run),
 		"C10" => c10::run(run),
 		"C11" => c11::run(run),
@@ -45,6 +47,7 @@ fn replay_case(run: &Run, prop: &str, stage: &str, tape: Option<&[u16]>, v: &ser
 		"C05" => c05::replay(run, stage, tape, v),
 		"C09" => c09::replay(run, stage, tape, v),
 		"C06" => c06::replay(run, stage, tape, v),
+		"C07" => c07::replay(run, stage, tape, v),
 		"C08" => c08::replay(run, stage, tape, v),
 		"C10" => c10::replay(run, stage, tape, v),
 		"C11" => c11::replay(run, stage, tape, v),
